@@ -30,8 +30,9 @@ RULE = ('Configurations = (routine, n_rdm x n_cond, grouping descriptors, model 
         'distinct = (configuration, draw history).')
 ASSUMPTIONS = ['the recorded sample / fold objects are what the routine evaluated on (their own faithfulness is C09 / C05)',
                'randomness enters only through numpy.random.randint / shuffle (tripwires elsewhere)',
-               'variance oracle uses use_correction=False for the cross-validated bootstraps (the correction is an '
-               'extrapolation formula, not the sample covariance the statement describes)']
+               'with the n_cv correction off the covariance oracle is the sample covariance the statement describes; with '
+               'the correction on it is the documented projection (n_cv V(n_cv) - V(1)) / (n_cv - 1) recomputed '
+               'from the stored evaluations of all repetitions']
 TOL = 1e-9
 TOLERANCES = {'evaluation': TOL, 'variance': 1e-9}
 BOUNDS = {'quick': {'sizes': '2x4, 3x4, 3x5', 'N': 2, 'cv deviation bound': 1},
@@ -102,6 +103,17 @@ def make_models(kinds, n_cond, seed, container='list'):
         elif kind == 'interpolate':
             models.append(MD.ModelInterpolate('interp', obj))
             spec.append({'kind': 'interpolate', 'basis': B, 'theta': np.array([0.25, 0.75])})
+        # entries of the model list need not have distinct names: a second model under a name already in the
+        # list, and ONE model object listed twice with two parameter values
+        elif kind == 'fixed-same-name':
+            o1 = selfdesc.build([8], list(range(n_cond)), container=container)
+            o1.dissimilarities = B[1:2].copy()
+            models.append(MD.ModelFixed('fixed', o1))
+            spec.append({'kind': 'fixed', 'basis': B[1:2], 'theta': None})
+        elif kind == 'select-same-object':
+            prev = [m for m in models if isinstance(m, MD.ModelSelect)]
+            models.append(prev[-1] if prev else MD.ModelSelect('select', obj))
+            spec.append({'kind': 'select', 'basis': B, 'theta': 0})
     return models, spec
 
 
@@ -198,6 +210,17 @@ def configs(tier):
             out.append({'routine': routine, 'n_rdm': 3, 'n_cond': 4, 'method': 'cosine', 'rdm_desc': 'index',
                         'pat_desc': 'index', 'N': 2, 'boot_noise_ceil': True, 'models': ['weighted', 'interpolate'],
                         'theta_form': form})
+    # model lists with repeated names / one object listed twice at two parameter values
+    dup = ['fixed', 'select', 'fixed-same-name', 'select-same-object']
+    out.append({'routine': 'eval_fixed', 'n_rdm': 3, 'n_cond': 4, 'method': 'cosine', 'models': dup})
+    for routine in ('eval_bootstrap', 'eval_bootstrap_rdm', 'eval_bootstrap_pattern'):
+        out.append({'routine': routine, 'n_rdm': 3, 'n_cond': 5, 'method': 'cosine', 'rdm_desc': 'index',
+                    'pat_desc': 'index', 'N': 2, 'boot_noise_ceil': True, 'models': dup})
+    out.append({'routine': 'crossval', 'n_rdm': 3, 'n_cond': 6, 'method': 'cosine', 'gen': 'sets_k_fold',
+                'models': ['fixed', 'fitted', 'fixed-same-name']})
+    out.append({'routine': 'bootstrap_crossval', 'n_rdm': 3, 'n_cond': 6, 'method': 'cosine', 'boot_type': 'both',
+                'k_pattern': 2, 'k_rdm': 1, 'n_cv': 1, 'N': 2, 'rdm_desc': 'index', 'pat_desc': 'index',
+                'models': ['fixed', 'fitted', 'fixed-same-name']})
     # B plain bootstraps
     for routine in ('eval_bootstrap', 'eval_bootstrap_rdm', 'eval_bootstrap_pattern'):
         for (nr, nc) in sizes:
@@ -305,6 +328,21 @@ def configs(tier):
                 'models': ['fixed', 'fitted']})
     out.append({'routine': 'eval_dual_bootstrap', 'n_rdm': 4, 'n_cond': 7, 'method': 'cosine', 'k_pattern': None,
                 'k_rdm': None, 'n_cv': 1, 'N': 2, 'rdm_desc': 'index', 'pat_desc': 'index', 'models': ['fixed', 'fitted']})
+    # the n_cv variance correction (default of the routines): the reported covariance is the documented
+    # projection (n_cv V(n_cv) - V(1)) / (n_cv - 1) computed from the stored evaluations and ceilings of ALL
+    # repetitions
+    for ncv in (2, 3):
+        for bt in ('both', 'rdm'):
+            out.append({'routine': 'bootstrap_crossval', 'n_rdm': 3, 'n_cond': 6, 'method': 'cosine', 'boot_type': bt,
+                        'k_pattern': 2, 'k_rdm': 1, 'n_cv': ncv, 'N': 3, 'rdm_desc': 'index', 'pat_desc': 'index',
+                        'models': ['fixed', 'fitted'], 'use_correction': True})
+        out.append({'routine': 'eval_dual_bootstrap_random', 'n_rdm': 3, 'n_cond': 7, 'method': 'cosine',
+                    'boot_type': 'both', 'n_pattern': 3, 'n_test_rdm': 1, 'n_cv': ncv, 'N': 3, 'rdm_desc': 'index',
+                    'pat_desc': 'index', 'models': ['fixed', 'fitted'], 'use_correction': True})
+        if ncv == 2 or big:
+            out.append({'routine': 'eval_dual_bootstrap', 'n_rdm': 3, 'n_cond': 6, 'method': 'cosine', 'k_pattern': 2,
+                        'k_rdm': 1, 'n_cv': ncv, 'N': 3, 'rdm_desc': 'index', 'pat_desc': 'index',
+                        'models': ['fixed', 'fitted'], 'use_correction': True})
     # grouped descriptors for the cross-validated bootstrap (dof / grouping)
     out.append({'routine': 'bootstrap_crossval', 'n_rdm': 4, 'n_cond': 6, 'method': 'cosine', 'boot_type': 'both',
                 'k_pattern': 2, 'k_rdm': 1, 'n_cv': 1, 'N': 2, 'rdm_desc': 'grp', 'pat_desc': 'index',
@@ -409,16 +447,16 @@ def execute(cfg, env, seed):
             res = EV.bootstrap_crossval(models, data, method=cfg['method'], fitter=fit_list, k_pattern=cfg['k_pattern'],
                                         k_rdm=cfg['k_rdm'], N=cfg['N'], n_cv=cfg['n_cv'], boot_type=cfg['boot_type'],
                                         pattern_descriptor=cfg['pat_desc'], rdm_descriptor=cfg['rdm_desc'],
-                                        use_correction=False)
+                                        use_correction=cfg.get('use_correction', False))
         elif r == 'eval_dual_bootstrap':
             res = EV.eval_dual_bootstrap(models, data, method=cfg['method'], fitter=fit_list, k_pattern=cfg['k_pattern'],
-                                         k_rdm=cfg['k_rdm'], N=cfg['N'], n_cv=cfg['n_cv'], use_correction=False,
+                                         k_rdm=cfg['k_rdm'], N=cfg['N'], n_cv=cfg['n_cv'], use_correction=cfg.get('use_correction', False),
                                          pattern_descriptor=cfg.get('pat_desc', 'index'),
                                          rdm_descriptor=cfg.get('rdm_desc', 'index'))
         elif r == 'eval_dual_bootstrap_random':
             res = EV.eval_dual_bootstrap_random(models, data, method=cfg['method'], fitter=fit_list,
                                                 n_pattern=cfg['n_pattern'], n_rdm=cfg['n_test_rdm'], N=cfg['N'],
-                                                n_cv=cfg['n_cv'], boot_type=cfg['boot_type'], use_correction=False)
+                                                n_cv=cfg['n_cv'], boot_type=cfg['boot_type'], use_correction=cfg.get('use_correction', False))
         elif r.startswith('bootstrap_testset'):
             import rsatoolbox.inference.boot_testset as BT
             fn = getattr(BT, r)
@@ -643,11 +681,60 @@ def judge(cfg, obs, ctx, case):
         else:
             tr, te, ce = cvs[0][3]
             fit_ptr = _judge_folds(ctx, sig, case, cfg, spec, obs['fitter'], slab, tr, te, fit_ptr)
+            # the noise ceilings of this resample, one (lower, upper) pair per repetition: the test RDMs of the
+            # repetition against the pooled remaining RDMs (lower) / the pooled RDMs of the resample (upper),
+            # both at the repetition's test conditions
+            ncl_all = np.asarray(res.noise_ceiling, dtype=float)
+            if ncl_all.shape != (2, N, n_cv):
+                ctx.fail(sig + '|noise-ceiling|shape', case, '%r for N=%d, n_cv=%d' % (ncl_all.shape, N, n_cv))
+            else:
+                for rep in range(n_cv):
+                    try:
+                        lo, up = _fold_ceiling(method, out[0], ce[rep], te[rep])
+                    except (ValueError, KeyError, ZeroDivisionError):
+                        lo = up = None
+                    if lo is not None and up is not None:
+                        _cmp(ctx, sig + '|noise-ceiling', case, float(ncl_all[0, i, rep]), lo,
+                             'lower ceiling of resample %d, repetition %d' % (i, rep))
+                        _cmp(ctx, sig + '|noise-ceiling', case, float(ncl_all[1, i, rep]), up,
+                             'upper ceiling of resample %d, repetition %d' % (i, rep))
         per_sample.append(i)
     ok = [i for i in per_sample if i is not None]
     ncl = np.asarray(res.noise_ceiling, dtype=float)
     # variances = sample covariance across resamples of the per-resample means (+ ceilings)
-    if r == 'eval_dual_bootstrap':
+    corrected = bool(cfg.get('use_correction')) and n_cv > 1 and \
+        not (r == 'eval_dual_bootstrap' and cfg['k_pattern'] == 1 and cfg['k_rdm'] == 1)
+
+    def _projected(rows_mean, rows_rep):
+        """the documented projection to infinitely many fold assignments from the covariance of the means over
+        all n_cv repetitions and the average covariance of the single repetitions (EVERY repetition once)"""
+        v_mean = np.atleast_2d(np.cov(rows_mean))
+        v_1 = np.mean([np.atleast_2d(np.cov(q)) for q in rows_rep], axis=0)
+        return (n_cv * v_mean - v_1) / (n_cv - 1)
+
+    if corrected and len(ok) >= 2:
+        if r == 'eval_dual_bootstrap':
+            for kind in range(3):
+                e = ev[ok][..., kind]                                      # (n_ok, n_model, folds, n_cv)
+                c = ncl[:, ok][..., kind]                                  # (2, n_ok, n_cv)
+                rows_mean = np.concatenate([np.mean(np.mean(e, -1), -1).T, np.mean(c, -1)])
+                rows_rep = [np.concatenate([np.mean(e[..., q], -1).T, c[..., q]]) for q in range(n_cv)]
+                want = _projected(rows_mean, rows_rep)
+                if not np.allclose(np.asarray(res.variances)[kind], want, rtol=1e-9, atol=1e-12):
+                    ctx.fail(sig + '|corrected-covariance', case, 'variances[%d] %r, the projection from the stored '
+                             'evaluations of all %d repetitions gives %r' % (kind, np.asarray(res.variances)[kind], n_cv, want))
+        else:
+            e = ev[ok]                                                     # (n_ok, n_model, [folds,] n_cv)
+            c = ncl[:, ok]                                                 # (2, n_ok, n_cv)
+            if e.ndim == 4:
+                e = np.mean(e, -2)
+            rows_mean = np.concatenate([np.mean(e, -1).T, np.mean(c, -1)])
+            rows_rep = [np.concatenate([e[..., q].T, c[..., q]]) for q in range(n_cv)]
+            want = _projected(rows_mean, rows_rep)
+            if not np.allclose(np.atleast_2d(res.variances), want, rtol=1e-9, atol=1e-12):
+                ctx.fail(sig + '|corrected-covariance', case, 'variances %r, the projection from the stored evaluations '
+                         'of all %d repetitions gives %r' % (res.variances, n_cv, want))
+    elif r == 'eval_dual_bootstrap':
         if len(ok) >= 2:
             for kind in range(3):
                 m = np.mean(np.mean(ev[ok][..., kind], -1), -1)          # (n_ok, n_model)
@@ -730,6 +817,32 @@ def _judge_testset(cfg, obs, ctx, case):
             pred = restrict(ref_prediction(s, theta), nc, test_c)
             want = RP.mean_sim(method, pred, vecs)
             _cmp(ctx, r, case, ev[i, j], want, 'evaluation[%d, model %d]' % (i, j))
+
+
+def _pooled_table(method, obj):
+    """pooled RDM of `obj` as a table (condition id pair) -> value"""
+    _, cids = selfdesc.read_ids(obj)
+    pooled = RP.pool([list(map(float, v)) for v in np.asarray(obj.dissimilarities)], method)
+    t, k = {}, 0
+    for i in range(len(cids)):
+        for j in range(i + 1, len(cids)):
+            if cids[i] != cids[j]:
+                t[(min(cids[i], cids[j]), max(cids[i], cids[j]))] = pooled[k]
+            k += 1
+    return t
+
+
+def _fold_ceiling(method, sample, ceil, test):
+    """(lower, upper) ceiling of one fold: mean similarity of the fold's test RDMs with the pooled ceiling-set
+    RDMs / the pooled RDMs of the whole resample at the test conditions"""
+    _, te_c = selfdesc.read_ids(test[0])
+    tvecs = [list(map(float, v)) for v in np.asarray(test[0].dissimilarities)]
+
+    def at(t):
+        return [float('nan') if te_c[i] == te_c[j] else t[(min(te_c[i], te_c[j]), max(te_c[i], te_c[j]))]
+                for i in range(len(te_c)) for j in range(i + 1, len(te_c))]
+    return (RP.mean_sim(method, at(_pooled_table(method, ceil[0])), tvecs),
+            RP.mean_sim(method, at(_pooled_table(method, sample)), tvecs))
 
 
 def _judge_folds(ctx, sig, case, cfg, spec, fitter, evals, train_set, test_set, fit_ptr):
